@@ -26,7 +26,8 @@ SPEC['C03'] = ('Bottom-up build leaves every known task up to date', ['Local2', 
   ('C03_mixed_refuted', 'Findings', 'C03_mixed_refuted',
    'recorded finding (O4): with a top-down build between the change and its report, the bottom-up build executes nothing and a task stays stale'),
 ], 'PARTIAL + recorded finding. The global statement is decided by correspondence + the probe-session oracle.')
-SPEC['C04'] = ('Bottom-up build runs only affected tasks, once, in dependency order', ['Queue', 'Local', 'BuJust', 'BuOnce'], [
+SPEC['C04'] = ('Bottom-up build runs only affected tasks, once, in dependency order', ['Queue', 'Local', 'BuJust', 'BuOnce', 'BuOnce2'], [
+  ('C04_second_execution_only_after_rescheduling', 'BuOnce2', 'bottom_up_second_execution_rescheduled', 'at-most-once, second step (BuOnce.v + NoReentry.v), for ALL programs and checkers: in the bottom-up build that opens a session after ANY history (completed or aborted), between two execution starts of the same task the task was scheduled again -- the alternative of C04_at_most_once_partial (the earlier execution still open) is excluded by C07 for all sessions'),
   ('C04_at_most_once_partial', 'BuOnce', 'bottom_up_no_duplicate_execution', 'the at-most-once clause, PARTIAL but global: for ALL programs, checkers, fuel, worlds and change sets, in ANY bottom-up build (completed or aborted) a second execution of a task t can only start if, since the previous start of t, t was scheduled again or that previous execution has not ended -- the queue bookkeeping and the "new task" shortcut never duplicate an execution (what failed before the repair of O14). Missing for the full clause: a task is not scheduled again after it ran (the hidden-dependency argument inside the class), and an executing task is not re-entered (the cycle check); both are decided by the oracle executed-twice on every run'),
   ('C04_executions_justified_all_builds', 'BuJust', 'bottom_up_executions_justified', 'GLOBAL form of "only affected tasks run": for ALL programs, checkers, fuel, ALL worlds and change sets, in the event stream of ANY bottom-up build (completed or aborted) every task execution is of a task that was scheduled earlier in this build or had no output when the build started (required for the first time), and every scheduling event is directly preceded by the end of a dependency check of that task whose checker reported inconsistency or failed (SJ)'),
   ('C04_unaffected_not_executed', 'BuJust', 'unaffected_not_executed', 'contrapositive: a task that has an output when the build starts and is not scheduled in the build (none of its recorded dependencies is reported inconsistent, including when an executed dependency produced an output its checker accepts) is not executed in the build'),
